@@ -1,4 +1,6 @@
 pub mod c03;
+pub mod c04;
+pub mod c04_l2;
 pub mod c05;
 
 use crate::engine::Run;
@@ -6,6 +8,7 @@ use crate::engine::Run;
 pub fn dispatch(run: &mut Run) -> bool {
   match run.id.as_str() {
     "C03" => c03::run(run),
+    "C04" => c04::run(run),
     "C05" => c05::run(run),
     _ => return false,
   }
